@@ -159,3 +159,10 @@ where
         self()
     }
 }
+
+#[cfg(feature = "verif")]
+impl<M: Message<Response = ()>> crate::verif::VerifId for Sender<M> {
+    fn __verif_id(&self) -> u64 {
+        crate::verif::sender_or_caller_id(self.id)
+    }
+}
